@@ -602,13 +602,20 @@ func runReadHit(c *Ctx, r *RuleRun) {
 	})
 	// types.Value: tombstone means not found
 	tomb := p.Field("types", "Entry", "Tombstone")
-	eachInstr(valueFn, func(ins ssa.Instruction) {
-		ret, ok := ins.(*ssa.Return)
-		if !ok {
-			return
+	for _, rc := range returnCases(valueFn) {
+		ret := rc.Ret
+		if len(rc.Vals) != 2 {
+			continue
 		}
-		if isConstBool(retOperand(ret, 1), true) {
-			g := boolFactIs(ret, func(v ssa.Value) bool {
+		// `return e.Value, !e.Tombstone` says the same
+		if u, isNot := rc.Vals[1].(*ssa.UnOp); isNot && u.Op == token.NOT {
+			if fv, _ := loadedField(u.X); fv == tomb && tomb != nil {
+				r.Hold(p.FnName(valueFn), "found only if not deleted", p.Pos(instrPos(ret)), "found = !Tombstone")
+				continue
+			}
+		}
+		if isConstBool(rc.Vals[1], true) {
+			g := caseBoolFact(rc, func(v ssa.Value) bool {
 				fv, _ := loadedField(v)
 				if fv == tomb {
 					return true
@@ -620,7 +627,7 @@ func runReadHit(c *Ctx, r *RuleRun) {
 			}, false)
 			r.Check(g, p.FnName(valueFn), "found only if not deleted", p.Pos(instrPos(ret)), "returns found only when Tombstone is false", "types.Value reports a deleted entry as found")
 		}
-	})
+	}
 	// Txn.Get buffer hit: tombstone in the own write buffer means not found
 	get := p.Fn("", "Txn", "Get")
 	if get != nil {
@@ -1681,14 +1688,14 @@ func runBloomSib(c *Ctx, r *RuleRun) {
 		r.Viol("Filter", "bitset store", p.Pos(add.Pos()), "Add never sets a bit")
 	}
 	// Contains answers false only on a clear bit and true otherwise
-	eachInstr(con, func(ins ssa.Instruction) {
-		ret, ok := ins.(*ssa.Return)
-		if !ok {
-			return
+	for _, rc := range returnCases(con) {
+		ret := rc.Ret
+		if len(rc.Vals) != 1 {
+			continue
 		}
-		v := retOperand(ret, 0)
+		v := rc.Vals[0]
 		if isConstBool(v, false) {
-			g := hasFact(ret, func(cm Cmp) bool {
+			g := caseHasFact(rc, func(cm Cmp) bool {
 				if cm.Y != nil || cm.Op != "false" {
 					return false
 				}
@@ -1705,7 +1712,7 @@ func runBloomSib(c *Ctx, r *RuleRun) {
 			})
 			r.Check(g, p.FnName(con), "denies only on a clear bit", p.Pos(instrPos(ret)), "false only when an indexed bit is clear", "Contains can answer false although every indexed bit is set")
 		}
-	})
+	}
 }
 
 func runBloomReset(c *Ctx, r *RuleRun) {
